@@ -127,6 +127,10 @@ for i in range(30 * SCALE):
                                ksrxml.default_zsk_policy(**{k: rand_dur() for k in ("publish_safety", "retire_safety", "max_validity", "min_validity", "max_overlap", "min_overlap")},
                                                          algs=[("RSA", 8, 1024, 65537)] + ([("RSA", 10, 1024, 3)] if R.random() < 0.5 else [])), sign=False)
     rq["serial"] = R.choice([0, 1, 7, 10**9, R.randrange(10**6)])
+    if i % 5 == 4 and nb >= 2:
+        # a bundle that starts before its predecessor and still expires after it (legal when the interval checks are off): the SKR keeps the signer's order
+        j_ = R.randrange(1, nb)
+        rq["bundles"][j_] = dict(rq["bundles"][j_], inc=rq["bundles"][j_ - 1]["inc"] - D(days=R.choice([1, 3]), seconds=R.randrange(3600)))
     if i % 4 in (2, 3):
         odd = R.choice(ODD_ID_CHARS)
         rq["bundles"] = [dict(b, id=f"b{j}{odd}x-{R.randrange(10**6)}") for j, b in enumerate(rq["bundles"])]
